@@ -26,7 +26,7 @@ func genC11(t *rapid.T) C11Case {
 	g := newG(t, p)
 	g.genWorld()
 	g.genRichExtras()
-	params := ctlsim.Params{Shards: rapid.SampledFrom([]int{0, 0, 3}).Draw(t, "shards"), SortBy: rapid.SampledFrom([]string{"", "", "name", "ip"}).Draw(t, "sortby")}
+	params := ctlsim.Params{Shards: rapid.SampledFrom([]int{0, 0, 2, 3}).Draw(t, "shards"), SortBy: rapid.SampledFrom([]string{"", "", "name", "ip"}).Draw(t, "sortby")}
 	c := C11Case{Hist: HistCase{Params: params}}
 	for _, o := range g.W.List() {
 		c.Hist.Init = append(c.Hist.Init, o.Clone())
